@@ -8,9 +8,12 @@ use cao_lang::compiler::{
     UnaryExpression,
 };
 
-pub const NAMES: [&str; 22] = [
+pub const NAMES: [&str; 31] = [
     "a", "b", "x", "main", "f", "g", "foo", "a.b", "a.b.c", "", "super", "super.f", "super.super.f", "std", "std.min", "m.f", "é",
     "with space", "_", "k9", "f.", ".f",
+    // multi-byte text in front of a dot (byte offset != character offset), and names that differ
+    // from an ordinary one only by surrounding white space
+    "é.x", "日本.x", "pooh🔥.a.b", "é.a.b", " x", "x ", "x\n", "\tx", "a .b",
 ];
 
 pub struct CardGen {
